@@ -134,6 +134,7 @@ var lintSites = []struct {
 }{
 	{"matrix-nested-array", "on: push\njobs:\n  j:\n    runs-on: ubuntu-latest\n    strategy:\n      matrix:\n        a:\n          - - ${{", "\n            - x\n    steps:\n      - run: echo\n", 8, 15},
 	{"matrix-include-array", "on: push\njobs:\n  j:\n    runs-on: ubuntu-latest\n    strategy:\n      matrix:\n        a: [1]\n        include:\n          - b:\n              - ${{", "\n              - y\n    steps:\n      - run: echo\n", 10, 17},
+	{"closing-braces-before", "on: push\njobs:\n  j:\n    runs-on: ubuntu-latest\n    steps:\n      - run: echo\n        env:\n          X: a }} b ${{", "\n", 8, 21},
 	{"with-input", "on: push\njobs:\n  j:\n    runs-on: ubuntu-latest\n    steps:\n      - uses: actions/checkout@v4\n        with:\n          ref: ${{", "\n", 8, 16},
 }
 
